@@ -39,6 +39,18 @@ fn n_callback(vm: &mut Vm<Aux>, f: Value, x: Value) -> Result<Value, ExecutionEr
     vm.get_aux_mut().push(format!("callback -> {t}"));
     Ok(r)
 }
+/// a protected call: the callee's error is swallowed
+fn n_pcall(vm: &mut Vm<Aux>, f: Value, x: Value) -> Result<Value, ExecutionErrorPayload> {
+    vm.stack_push(x)?;
+    match vm.run_function(f) {
+        Ok(r) => Ok(r),
+        Err(e) => {
+            let k = err_kind(&e);
+            vm.get_aux_mut().push(format!("pcall caught {k}"));
+            Ok(Value::Nil)
+        }
+    }
+}
 /// a plain (untyped) host function: pops its own argument — a function value — and calls it with
 /// nothing else pushed
 fn n_papply(vm: &mut Vm<Aux>) -> Result<Value, ExecutionErrorPayload> {
@@ -52,11 +64,15 @@ fn n_strlen(_vm: &mut Vm<Aux>, s: &str) -> Result<Value, ExecutionErrorPayload> 
     Ok(Value::Integer(s.len() as i64))
 }
 fn n_three(vm: &mut Vm<Aux>, a: Value, b: Value, c: Value) -> Result<Value, ExecutionErrorPayload> {
+    // allocate before looking at the arguments: a collection may run while they are only
+    // referenced from the argument slots
+    drop(vm.init_string("scratch")?);
     let l = format!("three {} {} {}", tok(a), tok(b), tok(c));
     vm.get_aux_mut().push(l);
     Ok(a)
 }
 fn n_four(vm: &mut Vm<Aux>, a: Value, b: Value, c: Value, d: Value) -> Result<Value, ExecutionErrorPayload> {
+    drop(vm.init_string("scratch")?);
     let l = format!("four {} {} {} {}", tok(a), tok(b), tok(c), tok(d));
     vm.get_aux_mut().push(l);
     Ok(d)
@@ -98,6 +114,7 @@ pub fn new_vm(mem: usize, stack: usize, calls: usize) -> Vm<'static, Aux> {
     vm.register_native_function("four", into_f4(n_four)).unwrap();
     vm.register_native_function("mktable", into_f1(n_mktable)).unwrap();
     vm.register_native_function("papply", n_papply).unwrap();
+    vm.register_native_function("pcall", into_f2(n_pcall)).unwrap();
     vm
 }
 
@@ -229,6 +246,21 @@ impl Engine for VmEngine {
                 }
                 ops
             },
+            // stale slots above the stack height must not be visible after clear: an earlier run
+            // leaves 10,20,30 behind (Return with three arguments), the later program reads locals
+            // whose only assignments sit in untaken branches
+            vec![
+                "vm new".to_string(),
+                "vm run mod([],[fn($6d61696e,[],[setglobal($67,call($73756d33,[int(#10),int(#20),int(#30)]))]),fn($73756d33,[$61,$62,$63],[return(add(readvar($61),add(readvar($62),readvar($63))))])],[]) budget=1000".to_string(),
+                "vm clear".to_string(),
+                "vm runcheck mod([],[fn($6d61696e,[],[setvar($65,int(#0)),iftrue(readvar($65),setvar($626f,int(#1))),iftrue(readvar($65),setvar($7363,int(#2))),setglobal($67,readvar($7363))])],[]) budget=1000".to_string(),
+            ],
+            // successive runs WITHOUT clear of a balanced program must not consume a resource: the
+            // same string object twice in the rows of a sorted table (guards of the sort keys)
+            vec![
+                "vm new mem=16384 stack=256 calls=256".to_string(),
+                format!("vm repeat mod([],[fn($6d61696e,[],[setvar($73,str(${})),setvar($74,table),setprop(readvar($73),readvar($74),int(#0)),setprop(readvar($73),readvar($74),int(#1)),setglobal($67,len(call($7374642e736f72746564,[readvar($74)])))])],[]) n=60 clear=0 budget=2000", "78".repeat(150)),
+            ],
             // known finding K2: == on a table that contains itself recurses without bound
             run("setvar($74,table),setprop(readvar($74),readvar($74),int(#0)),setglobal($67,eq(readvar($74),readvar($74)))", ""),
             // nested budget (F9): a sort whose key function loops; the whole run has one budget
@@ -494,6 +526,13 @@ impl Engine for VmEngine {
 
     fn nontrivial(&self, ops: &[String], _o: &[String]) -> bool {
         ops.iter().any(|o| o.len() > 150)
+    }
+    /// `pcall` (a host function that swallows its callee's error, also a Timeout) exists on the
+    /// implementation side and in the reference semantics only: the VM model's budget simulation
+    /// (C03 `Sim`) is stated for host functions that propagate errors. Programs that use it are
+    /// checked by the oracles (dispatch bound, fresh-VM comparison), not against the VM model.
+    fn model_compared(&self, op: &str) -> bool {
+        !op.contains("$7063616c6c")
     }
 }
 
